@@ -1635,8 +1635,7 @@ impl Archive {
 
         if file_info.is_single_unit() || !file_info.is_compressed() {
             // Single unit or uncompressed file - read directly
-            let mut data = vec![0u8; file_info.compressed_size as usize];
-            self.reader.read_exact(&mut data)?;
+            let mut data = read_exact_vec(&mut self.reader, file_info.compressed_size)?;
 
             // Decrypt if needed
             if file_info.is_encrypted() {
@@ -1866,8 +1865,7 @@ impl Archive {
                     ))
                 })?;
 
-            let mut data = vec![0u8; compressed_data_size];
-            self.reader.read_exact(&mut data)?;
+            let mut data = read_exact_vec(&mut self.reader, compressed_data_size as u64)?;
 
             log::debug!(
                 "Read {} bytes of compressed patch data (single unit)",
@@ -1918,8 +1916,7 @@ impl Archive {
 
             // Read sector offset table
             let offset_table_size = (sector_count + 1) * 4;
-            let mut offset_data = vec![0u8; offset_table_size];
-            self.reader.read_exact(&mut offset_data)?;
+            let offset_data = read_exact_vec(&mut self.reader, offset_table_size as u64)?;
 
             log::debug!(
                 "Read sector offset table: {} bytes for {} sectors",
@@ -1937,7 +1934,10 @@ impl Archive {
             log::debug!("Sector offsets: {:?}", &sector_offsets);
 
             // Read and decompress each sector
-            let mut decompressed_data = Vec::with_capacity(patch_data_size as usize);
+            // (reserve at most what is stored; the vector grows from there if the data expands)
+            let stored_len = self.stored_len_from(file_info.file_pos)?;
+            let mut decompressed_data =
+                Vec::with_capacity((patch_data_size as u64).min(stored_len) as usize);
 
             for i in 0..sector_count {
                 let sector_start = sector_offsets[i] as usize;
@@ -1958,8 +1958,7 @@ impl Archive {
 
                 self.reader.seek(SeekFrom::Start(sector_file_pos))?;
 
-                let mut sector_data = vec![0u8; sector_compressed_size];
-                self.reader.read_exact(&mut sector_data)?;
+                let sector_data = read_exact_vec(&mut self.reader, sector_compressed_size as u64)?;
 
                 log::debug!(
                     "Sector {} data first 16 bytes: {:02X?}",
@@ -2124,8 +2123,7 @@ impl Archive {
 
         if file_info.is_single_unit() || !file_info.is_compressed() {
             // Single unit or uncompressed file - read directly
-            let mut data = vec![0u8; file_info.compressed_size as usize];
-            self.reader.read_exact(&mut data)?;
+            let mut data = read_exact_vec(&mut self.reader, file_info.compressed_size)?;
 
             // Decrypt if needed
             if file_info.is_encrypted() {
@@ -2179,6 +2177,12 @@ impl Archive {
         }
     }
 
+    /// Number of bytes the archive file holds from `file_pos` to its end
+    fn stored_len_from(&self, file_pos: u64) -> Result<u64> {
+        let file_len = self.reader.get_ref().metadata()?.len();
+        Ok(file_len.saturating_sub(file_pos))
+    }
+
     /// Read a file that is split into sectors
     fn read_sectored_file(&mut self, file_info: &FileInfo, key: u32) -> Result<Vec<u8>> {
         let sector_size = self.header.sector_size();
@@ -2200,16 +2204,16 @@ impl Archive {
             file_info.file_pos
         );
 
-        let mut offset_data = vec![0u8; offset_table_size];
-        self.reader.read_exact(&mut offset_data).map_err(|e| {
-            log::error!("Failed to read offset table: {}", e);
-            log::error!(
-                "  Tried to read {} bytes at position 0x{:X}",
-                offset_table_size,
-                file_info.file_pos
-            );
-            e
-        })?;
+        let mut offset_data =
+            read_exact_vec(&mut self.reader, offset_table_size as u64).map_err(|e| {
+                log::error!("Failed to read offset table: {}", e);
+                log::error!(
+                    "  Tried to read {} bytes at position 0x{:X}",
+                    offset_table_size,
+                    file_info.file_pos
+                );
+                e
+            })?;
 
         // Decrypt sector offset table if needed
         if file_info.is_encrypted() {
@@ -2275,12 +2279,18 @@ impl Archive {
             }
         }
 
+        // The sizes in the block table and the sector offsets are not trustworthy: no sector
+        // can be longer than what the archive holds from the file position on
+        let stored_len = self.stored_len_from(file_info.file_pos)?;
+
         // Read and decompress each sector
-        let mut decompressed_data = Vec::with_capacity(file_info.file_size as usize);
+        // (reserve at most what is stored; the vector grows from there if the data expands)
+        let mut decompressed_data =
+            Vec::with_capacity(file_info.file_size.min(stored_len) as usize);
 
         // Pre-allocate a reusable buffer for sector reading
         // Add some overhead for compression headers
-        let max_sector_size = sector_size + 1024;
+        let max_sector_size = (sector_size + 1024).min(stored_len as usize);
         let mut sector_buffer = vec![0u8; max_sector_size];
 
         for i in 0..sector_count {
@@ -2299,6 +2309,12 @@ impl Archive {
                 let expected_size = remaining.min(sector_size);
                 decompressed_data.extend(vec![0u8; expected_size]);
                 continue;
+            }
+
+            if sector_end > stored_len {
+                return Err(Error::invalid_format(format!(
+                    "Sector {i} ends at offset {sector_end}, beyond the end of the archive"
+                )));
             }
 
             let sector_size_compressed = (sector_end - sector_start) as usize;
